@@ -38,6 +38,7 @@ type vpTarget struct {
 // a value or an error, never a panic; strict prefixes, negative lengths and
 // unknown tags are errors.
 func VP_C03_typed() {
+	vp.NoSpin(300) // bounded input: no loop of the decoder legitimately runs 300 times
 	n := vp.Choice(vpC03N() + 1)
 	b := vp.Bytes(n)
 	vp.SizeBound(n + 1)
